@@ -199,6 +199,10 @@ func RunC14(ep *core.Episode) {
 				return
 			}
 			s := ctx.RequestBodyStream()
+			if s == nil {
+				ep.Fail("C14.prefix", "request X: IsBodyStream() is true but RequestBodyStream() is nil")
+				return
+			}
 			buf := make([]byte, 1500)
 			for k := 0; k < 100000; k++ {
 				n, err := s.Read(buf)
@@ -244,6 +248,10 @@ func RunC14(ep *core.Episode) {
 				return
 			}
 			s := ctx.RequestBodyStream()
+			if s == nil {
+				ep.Fail("C14.prefix", "request A: IsBodyStream() is true but RequestBodyStream() is nil")
+				return
+			}
 			eofs := 0
 			zeros := 0
 			for step := 0; step < 100000; step++ {
